@@ -248,3 +248,34 @@ def concrete_inputs_key(model):
         for ix, kf in ((flat, k2), (flat, k3), (h2, k_same), (h2, k_deeper)):
             out.append(dict(index=ix, ascending=asc, kind='mergesort', key=kf))
     return out
+
+
+# Frame.sort_index / Frame.sort_columns / Series.sort_index: ONE permutation, computed by sort_index_for_order from the labels of the sorted axis with the caller's
+# ascending / kind / key (always: no shortcut that ignores the key), applied to the labels AND to the data of that axis; the other axis and the name are kept
+RECORDS['SlFrame'] = {'_index': 'elem', '_columns': 'elem', '_blocks': 'elem', '_name': 'elem'}
+RECORDS['SlResult'] = {'data': 'elem', 'index': 'elem', 'columns': 'elem', 'name': 'elem'}
+_SIFO = lambda ax: dict(params=dict(i='elem', kind='elem', ascending='bool', key='elem'), order=['i'], kwonly=['kind', 'ascending', 'key'], result='elem',
+                        ensures=['result == ufe("order_of", i, kind, ascending, key)'])
+_ORDER = lambda ax: f'ufe("order_of", self.{ax}, kind, ascending, key)'
+for _meth, _ax, _other, _rows in (('sort_index', '_index', '_columns', True), ('sort_columns', '_columns', '_index', False)):
+    contract(FR if False else 'static_frame/core/frame.py', f'Frame.{_meth}', key=f'Frame.{_meth}',
+        props=['C12'],
+        params=dict(self='SlFrame', ascending='bool', kind='elem', key='elem'), order=['self'], kwonly=['ascending', 'kind', 'key'],
+        result='SlResult',
+        calls={
+            'sort_index_for_order': _SIFO(_ax),
+            f'self.{_ax}.__getitem__': dict(params=dict(o='elem'), order=['o'], result='elem', ensures=[f'result == ufe("take_labels", self.{_ax}, o)']),
+            'self._blocks.iloc.__getitem__': dict(params=dict(o='elem'), order=['o'], result='elem', ensures=['result == ufe("take_rows", self._blocks, o)']),
+            'self._blocks.__getitem__': dict(params=dict(o='elem'), order=['o'], result='elem', ensures=['result == ufe("take_columns", self._blocks, o)']),
+            'self._blocks._extract': dict(params=dict(row_key='opt[elem]', column_key='opt[elem]'), order=[], kwonly=['row_key', 'column_key'], defaults=dict(row_key='None', column_key='None'),
+                                          result='elem', ensures=['result == ufe("take_data", self._blocks, row_key, column_key)']),
+            'self.__class__': dict(params=dict(data='elem', index='elem', columns='elem', name='elem'), order=['data'], kwonly=['index', 'columns', 'name', 'own_data', 'own_index', 'own_columns'],
+                                   result='SlResult', ensures=['result.data == data and result.index == index and result.columns == columns and result.name == name']),
+        },
+        ensures=[
+            (f'result.index == ufe("take_labels", self._index, {_ORDER("_index")}) and result.columns == self._columns' if _rows else
+             f'result.columns == ufe("take_labels", self._columns, {_ORDER("_columns")}) and result.index == self._index'),
+            'result.name == self._name',
+            # the data of the sorted axis is taken by the very same permutation
+            (f'result.data == ufe("take_rows", self._blocks, {_ORDER("_index")})' if _rows else f'result.data == ufe("take_columns", self._blocks, {_ORDER("_columns")})'),
+        ])
